@@ -9,6 +9,7 @@ local open/close of advertised listeners; every step's relays and advertisement 
 against AdsLocalTrace.tla."""
 import vlib
 import tracecheck
+import nodetrace
 
 
 def run(tier, seed, replay=None):
@@ -37,7 +38,15 @@ def run(tier, seed, replay=None):
                     {"trace_line": d["line"], "segment": d["segment"]})
     # mesh level (StableImpliesExact): real meshes, final advertisement tables validated by TLC
     nsc = 12 if tier == "quick" else 120
-    mo = tracecheck.run(wd, ["adsmesh", "-scenarios", str(nsc), "-seed", str(seed)], "AdsConverged", "AdsConverged.cfg", "adsmesh")
+    mhooks = wd + "/adsmesh_hooks.ndjson"
+    mo = tracecheck.run(wd, ["adsmesh", "-scenarios", str(nsc), "-seed", str(seed), "-hooktrace", mhooks], "AdsConverged", "AdsConverged.cfg", "adsmesh")
+    # every advertisement event of every node of those meshes (received, local open/close, relay targets) against AdsCore
+    nt = nodetrace.validate(wd, [mhooks], timeout=2400)
+    for d in nt["diffs"]:
+        if d["event"] in ("ad_recv", "ad_local", "ad_withdraw", "flood"):
+            v.violation("C18:%s:%s" % (d["event"], "+".join(d["what"])),
+                        "node event '%s' is not a behaviour of AdsCore/NodeTrace: %s; event %s" % (d["event"], ",".join(d["what"]), str(d["context"][-1])[:500]),
+                        {"instance": d["instance"], "context": d["context"]})
     for viol in mo["harness"]["violations"]:
         v.violation(viol["sig"], viol["what"], viol["replay"])
     for d in mo["diffs"]:
@@ -60,6 +69,7 @@ def run(tier, seed, replay=None):
         "samples": out["harness"]["samples"][:1] or out["lines"][1:4], "exhaustive": False,
         "step_classes": out["classes"], "witnesses": wit,
         "mesh_scenarios": mo["steps"], "mesh_distinct": mo["harness"]["distinct"],
+        "mesh_node_instances": nt["instances"], "mesh_ad_events": nt["classes"].get("ad_recv", 0),
         "asis_counterexample": asis.violated,
         "tlc_design": {"spec": "AdsLocal.tla", "generated": r.generated, "distinct": r.distinct},
         "tlc_mesh_design": {"spec": "ServiceAds.tla", "generated": rm.generated, "distinct": rm.distinct, "asis_counterexample": masis.violated},
